@@ -187,16 +187,18 @@ Section WRITER.
     apply andb_prop in H; destruct H as [H Htr].
     apply andb_prop in H; destruct H as [Hn Hlen].
     rewrite forallb_forall in Hlen, Htr, Hspecial, Hk.
-    split; [lia|]. split; [intros ft Hft; specialize (Hlen ft Hft); lia|].
-    split; [intros t Ht; specialize (Htr t Ht); lia|].
+    split; [apply Z.ltb_lt; exact Hn|].
+    split; [intros ft Hft; apply Z.eqb_eq; apply Hlen; exact Hft|].
+    split; [intros t Ht; apply Z.eqb_eq; apply Htr; exact Ht|].
     split; [exact Hspecial|].
     split; [destruct (f_unknown f); [reflexivity|discriminate]|].
     split; [destruct (f_extlink f); [discriminate|reflexivity]|].
     split; [exact Hw|]. split; [exact Hshape|].
-    split; [intros k Hk'; apply Hk; apply in_zrange; lia|].
+    split; [intros k Hk'; apply Hk; apply in_zrange; clear - Hk'; lia|].
     split.
     { intros Hfl k Hk'. rewrite Hfl in Hflk. cbn [negb orb] in Hflk.
-      rewrite forallb_forall in Hflk. apply Hflk. apply in_zrange. lia. }
+      rewrite forallb_forall in Hflk. apply Hflk. apply in_zrange.
+      clear - Hk'. lia. }
     repeat (split; [assumption|]). assumption.
   Qed.
 
@@ -206,7 +208,8 @@ Section WRITER.
     unfold flmax_nonempty, flmax_innate. apply existsb_ext_in.
     intros ft Hft. specialize (Hlen ft Hft).
     destruct (ft_data ft); try reflexivity. cbn [flen] in Hlen.
-    destruct (len =? 0) eqn:E; [lia|]. cbn [negb]. apply andb_true_r.
+    destruct (len =? 0) eqn:E; [clear - Hn Hlen E; lia|]. cbn [negb].
+    apply andb_true_r.
   Qed.
 
   Lemma entries_all_n :
@@ -218,7 +221,8 @@ Section WRITER.
       destruct He as [ft [<- Hft]]. cbn [snd]. apply Hlen. exact Hft.
     - destruct (ntraces f =? 0) eqn:E; [constructor|].
       constructor; [|constructor]. cbn [snd]. unfold first_trace_len.
-      unfold ntraces in E. destruct (f_traces f) as [|t r]; [cbn in E; lia|].
+      unfold ntraces in E.
+      destruct (f_traces f) as [|t r]; [cbn in E; clear - E; lia|].
       apply Htr. left. reflexivity.
   Qed.
 
@@ -368,6 +372,7 @@ Section WRITER.
       change (f_channel_width g) with (f_channel_width f).
       change (f_flow_rate g) with (f_flow_rate f).
       unfold positive_or_absent in Hp1, Hp2, Hp3, Hp4.
+      clear - Hp1 Hp2 Hp3 Hp4.
       destruct (f_frame_rate f) as [v1|], (f_pixel_size f) as [v2|],
         (f_channel_width f) as [v3|], (f_flow_rate f) as [v4|];
         cbn [flat_map fst snd app];
@@ -380,20 +385,18 @@ Section WRITER.
       unfold check_metadata_missing. rewrite HFL.
       assert (IS : imaging_section g = true).
       { unfold imaging_section. apply orb_true_iff. right.
-        apply existsb_exists. exists 5. split; [apply in_zrange; lia|].
-        apply key_supplied_present. apply Hk. lia. }
+        apply existsb_exists. exists 5. split; [apply in_zrange; clear; lia|].
+        apply key_supplied_present. apply Hk. clear. lia. }
       rewrite IS.
-      rewrite !missing_in_nil.
-      - destruct (has_fl f); reflexivity.
-      - intros k Hk'. apply in_zrange in Hk'. apply key_supplied_present.
-        apply Hk. lia.
-      - intros k Hk'. apply in_zrange in Hk'. apply key_supplied_present.
-        apply Hk. lia.
-      - intros k Hk'. apply in_zrange in Hk'. apply key_supplied_present.
-        apply Hk. lia.
-      - destruct (has_fl f) eqn:EF; [|exact (fun _ H => match H with end)].
-        intros k Hk'. apply in_zrange in Hk'. apply key_supplied_present.
-        apply Hflk; [reflexivity|lia]. }
+      assert (M : forall a b, 0 <= a -> b <= 17 -> missing_in g (zrange a b) = []).
+      { intros a b Ha Hb. apply missing_in_nil. intros k Hk'.
+        apply in_zrange in Hk'. apply key_supplied_present. apply Hk.
+        clear - Hk' Ha Hb. lia. }
+      unfold imaging_keys. rewrite !M by (clear; lia).
+      destruct (has_fl f) eqn:EF; [|reflexivity].
+      rewrite missing_in_nil; [reflexivity|].
+      intros k Hk'. apply in_zrange in Hk'. apply key_supplied_present.
+      apply Hflk; [reflexivity|clear - Hk'; lia]. }
     (* 12 polygons *)
     assert (A12 : check_metadata_online_filter_polygon_points_shape g = []).
     { unfold check_metadata_online_filter_polygon_points_shape.
@@ -406,7 +409,8 @@ Section WRITER.
       specialize (Hsp ft Hft). specialize (Hlen ft Hft).
       destruct (ft_data ft); try reflexivity. cbn [flen] in Hlen.
       destruct bad; [discriminate|]. subst len.
-      destruct (n =? 0) eqn:E; [lia|]. rewrite Z.eqb_refl. reflexivity. }
+      destruct (n =? 0) eqn:E; [clear - Hn E; lia|]. rewrite Z.eqb_refl.
+      reflexivity. }
     (* 14 temperature *)
     assert (A14 : check_temperature_zero_zmd g = []).
     { unfold check_temperature_zero_zmd. change (f_zmd g) with (f_zmd f).
@@ -479,7 +483,7 @@ Example ex_input_written :
             /\ f_chcount g = Some 1.
 Proof. eexists. split; [reflexivity|]. vm_compute. repeat split. Qed.
 
-(* before fixes_proposed/C13-writer-eventcount-trace-first.diff: a dataset
+(* before dclab commit ea8e52b: a dataset
    whose alphabetically first feature is "trace" gets the number of traces as
    event count and is then reported with violations *)
 Definition ex_trace_first : file :=
